@@ -36,7 +36,7 @@ CC == Ref("c")
 D == Ref("d")
 
 T2Rows == <<[a |-> 0, c |-> 1], [a |-> 1, c |-> 0], [a |-> 1, c |-> 1]>>
-T3Rows == <<[a |-> 1, b |-> 1], [a |-> 0, b |-> 1], [a |-> 1, b |-> 1]>>
+T3Rows == <<[a |-> 1, b |-> 1], [a |-> 0, b |-> 1], [a |-> 1, b |-> 1], [a |-> 1, b |-> 0]>>
 
 BoundsOf(mode, n) ==
     CASE mode = "exact" -> <<n, n>>
@@ -46,7 +46,7 @@ BoundsOf(mode, n) ==
 
 LeafT1(rows, mode) == Leaf("T1", "sql", {"a", "b"}, BoundsOf(mode, Len(rows))[1], BoundsOf(mode, Len(rows))[2])
 LeafT2 == Leaf("T2", "sql", {"a", "c"}, 0, -1)
-LeafT3 == Leaf("T3", "sql", {"a", "b"}, 3, 3)
+LeafT3 == Leaf("T3", "sql", {"a", "b"}, 4, 4)
 LeafX  == Leaf("X", "it1", {"a", "b"}, 1, 1)     \* a leaf of another engine (ill-formed operand)
 \* relations made by the engine itself: statically empty ("doomed") and the join identity
 LeafZ  == [k |-> "leaf", id |-> "Z", eng |-> "sql", cols |-> {"a", "b"}, min |-> 0, max |-> 0, msgs |-> 1]
@@ -67,6 +67,8 @@ OperandDefs ==
       T3pa  |-> [base |-> "T3", ops |-> <<Proj({"a"})>>],
       T3sel |-> [base |-> "T3", ops |-> <<Sel(Cmp("eq", A, Lit(1)))>>],
       T3dd  |-> [base |-> "T3", ops |-> <<Dedup>>],
+      \* deduplicated, THEN projected: "made of unique rows" no longer (rows that differed only in b)
+      T3dp  |-> [base |-> "T3", ops |-> <<Dedup, Proj({"a"})>>],
       T3ss  |-> [base |-> "T3", ops |-> <<Sort(TotalAB), Slice(0, 2)>>],
       T3so  |-> [base |-> "T3", ops |-> <<Sort(TotalAB)>>],
       T3cal |-> [base |-> "T3", ops |-> <<Calc("f", Fn("add", <<A, B>>)), Proj({"a", "f"})>>] ]
